@@ -3,7 +3,7 @@
    Print Assumptions.  Model: Cluster/Flat.v (generic) and Cluster/FlatQ.v
    (exact rationals, the instance run against the implementation). *)
 From Coq Require Import QArith List Bool Arith Relations.
-From LV Require Import Cluster.Flat Cluster.FlatProofs Cluster.FlatLinkage Cluster.FlatTextbook Cluster.FlatUnique Cluster.FlatQ Cluster.FlatQProofs Cluster.FlatRevert.
+From LV Require Import Cluster.Flat Cluster.FlatProofs Cluster.FlatLinkage Cluster.FlatTextbook Cluster.FlatUnique Cluster.FlatQ Cluster.FlatQProofs Cluster.FlatRevert Cluster.FlatDistinct Cluster.FlatDistinctNat.
 Import ListNotations.
 Local Open Scope nat_scope.
 
@@ -129,8 +129,37 @@ Theorem C05_coincides_with_textbook_without_ties :
     (forall a b, leb a b = true \/ leb b a = true) ->
     (forall a b c, leb a b = true -> leb b c = true -> leb a c = true) ->
     (forall l l', Permutation.Permutation l l' -> link l = link l') ->
-    forall (n : nat) (thr : V), no_ties V leb link d ->
+    forall (n : nat) (thr : V), no_ties V leb link d n ->
     forall r, tb_run V leb link d thr (init n) r ->
       forall x y, together r x y <-> together (flat leb link d n thr) x y.
 Proof. exact flat_coincides_with_textbook. Qed.
 Print Assumptions C05_coincides_with_textbook_without_ties.
+
+(* [no_ties ... n] ranges over the partition states of the items BELOW n only (an earlier version quantified over all
+   states and was unsatisfiable for a matrix read with a default outside its range).  It is satisfiable, for a whole class
+   of inputs: whenever the linkage is attained by one of the cross distances (single = min, complete = max) and the
+   distances between distinct items below n are pairwise distinct, there is no tie ... *)
+Theorem C05_distinct_entries_have_no_ties :
+  forall (V : Type) (leb : V -> V -> bool) (link : list V -> V) (d : nat -> nat -> V),
+    (forall l, l <> [] -> In (link l) l) ->
+    forall n : nat,
+    (forall x y x' y', x < n -> y < n -> x' < n -> y' < n -> x <> y -> x' <> y' ->
+       leb (d x y) (d x' y') = true -> leb (d x' y') (d x y) = true -> (x = x' /\ y = y') \/ (x = y' /\ y = x')) ->
+    no_ties V leb link d n.
+Proof. exact distinct_no_ties. Qed.
+Print Assumptions C05_distinct_entries_have_no_ties.
+
+(* ... hence on whole-number matrices with pairwise distinct entries single and complete linkage return exactly the
+   partition of the textbook procedure, for every threshold *)
+Theorem C05_single_and_complete_linkage_are_textbook_on_distinct_entries :
+  forall (d : nat -> nat -> nat) (n : nat), distinct_entries d n ->
+    forall thr r,
+      (tb_run nat Nat.leb lmin d thr (init n) r -> forall x y, together r x y <-> together (flat Nat.leb lmin d n thr) x y) /\
+      (tb_run nat Nat.leb lmax d thr (init n) r -> forall x y, together r x y <-> together (flat Nat.leb lmax d n thr) x y).
+Proof.
+  exact (fun d n D thr r => conj (single_linkage_is_textbook d n D thr r) (complete_linkage_is_textbook d n D thr r)).
+Qed.
+Print Assumptions C05_single_and_complete_linkage_are_textbook_on_distinct_entries.
+
+Example C05_no_ties_instance : distinct_entries d_ex 4 /\ d_ex 1 3 = 54 /\ d_ex 3 1 = 54.
+Proof. split; [exact d_ex_distinct|split; reflexivity]. Qed.
